@@ -11,6 +11,7 @@ R06.2 who may write the cache slots: only the two get functions (and Default) st
       empty).
 R06.4 the cache arrays have MAX_K + 1 slots (k ranges over 0 ..= MAX_K).
 R06.5 decidable validates its lookahead limit against MAX_K before the first cache access.
+R06.6 symbol sequences are never cut by count in the equation compilers (hazard rule, expected count 0).
 R06.3 the fixpoint loops of first_k / follow_k are left only on an equality test of the complete old and new state.
 """
 from ..dataflow import raw_operand_place, raw_place, single_def
@@ -104,6 +105,7 @@ def check(ctx):
     whole_state_convergence(ctx, facts)
     cache_capacity(ctx, facts)
     limit_validated(ctx, facts)
+    no_symbol_sequence_truncation(ctx, facts)
 
 
 # ------------------------------------------------------------------------------------------------------------------ R06.3
@@ -252,3 +254,32 @@ def limit_validated(ctx, facts, rule="R06.5"):
               "decidable reaches the per-k caches (lines %s) without having compared its lookahead limit with MAX_K: a limit above "
               "MAX_K (e.g. `parol export -k 11`) indexes past the cache arrays - a panic instead of an error" % sorted(set(bad)),
               where(d))
+
+
+def no_symbol_sequence_truncation(ctx, facts, rule="R06.6"):
+    """R06.6 (added after seed C06-b; expected count 0) the equation compilers of first_k / follow_k never cut a sequence of grammar
+    symbols by *count*: no take / take_while / truncate / split_off / step_by / resize on iterators or vectors of production
+    parts, symbol strings or symbols in parol::analysis::first and ::follow.  The k-truncation of FIRST_k / FOLLOW_k applies to
+    terminal strings (k_concat on KTuples), not to symbols - a symbol may derive epsilon, so the (k+1)-th symbol can still
+    contribute to the first k terminals."""
+    CUTS = {"take", "take_while", "truncate", "split_off", "step_by", "resize", "nth_back"}
+    SEQ = ("ProductionPart", "FollowPart", "SymbolString", "grammar::symbol::Symbol", "grammar::production::Pr")
+    hits = []
+    n = 0
+    for b in facts.in_crate(PA):
+        if not (b.module or "").startswith(("parol::analysis::first", "parol::analysis::follow")):
+            continue
+        n += 1
+        for c in b.calls():
+            nm = (c.path or "").split("::")[-1]
+            st = (c.self_ty or "") + " " + (c.callee.get("pa") or "")
+            if nm in CUTS and any(x in st for x in SEQ):
+                hits.append((b, c, nm))
+    for b, c, nm in hits:
+        ctx.bad(rule, "%s|%s-on-symbol-sequence" % (short(b.path), nm),
+                "%s applies %s to a sequence of grammar symbols / production parts: symbols behind the cut are ignored although the "
+                "ones before it may all derive epsilon - FIRST_k / FOLLOW_k lose tuples (and FOLLOW gains spurious ones from "
+                "the enclosing non-terminal)" % (short(b.path), nm), where(b, c.line))
+    ctx.check(not hits, rule, "no-count-truncation-of-symbol-sequences", "no take/truncate.. on symbol sequences in %d bodies" % n,
+              "%d truncation(s) of symbol sequences" % len(hits), nontrivial=False)
+    ctx.require_floor(rule, "bodies_scanned", n, 10)
